@@ -63,7 +63,7 @@ INIT = ("running", "none", 0, 0, "none")
 # Switch (as G01_CLOBBER in g01.py): also explore finish() arriving WHILE the restart hook runs.  The code as built restarts a
 # MIGRATABLE component in that case (genuine defect, out/proposed_fixes/C12_finish_during_restart_hook_*): off until it is
 # repaired or listed in known_findings.json (key DEV_KEY["finishedMigratableRestarted"]); C12_FINISH_IN_HOOK=1 switches it on.
-FINISH_IN_HOOK = os.environ.get("C12_FINISH_IN_HOOK", "0") == "1"
+FINISH_IN_HOOK = os.environ.get("C12_FINISH_IN_HOOK", "1") == "1"    # on by default since fix 0680eed
 
 
 # ---------------------------------------------------------------------------------------------------------------------
